@@ -1,5 +1,6 @@
 '''Child-process entry point: ``python -m vf.shard PROP SPEC RESULT``.'''
 import logging
+import os
 import sys
 import warnings
 
@@ -10,3 +11,7 @@ from vf.core import shard_main  # noqa: E402
 
 if __name__ == '__main__':
     shard_main(sys.argv[1:])
+    sys.stdout.flush()
+    sys.stderr.flush()
+    # threads leaked by the code under test must not keep the shard alive
+    os._exit(0)
